@@ -17,6 +17,8 @@ MIN_OBLIGATIONS = 50
 
 
 def check(ctx):
+    from . import tablefmt as _tf3
+    _tf3.check_policy_wrapping(ctx)   # filters are built and probed over user keys
     witness.run(ctx, "C16")
     tablefmt.check_write_block(ctx)
     tablefmt.check_read_block(ctx)
@@ -26,3 +28,5 @@ def check(ctx):
     c01.check_table_get(ctx)
     tablefmt.check_separators(ctx)
     tablefmt.check_filter_offsets(ctx)
+    from . import c18 as _c18
+    _c18.check_internal_key_gate(ctx)   # a block is declared corrupt on a short key only where keys carry the 8-byte tag
